@@ -9,6 +9,24 @@
   error_flow(prog, e)        what happens to the failure of the effect's call at every level it is handed up through
   selection(E, e)            "e runs for every element x of collection C with P(x)": loops, for_each / map closures and
                              filter stages are the same thing (iterator algebra); `if p(x)` inside the body is a predicate
+Robustness round 4 (normal forms that make families of spellings one thing; benign variants selftest/benign/C15-r4-*):
+  subtype_slicer             closures behind a `Subtype` cast (annotated return type / &mut capture) are closures
+  path_nf / comps_nf         a path value with local closures applied, private helpers / layout structs / tuples inlined,
+                             PathBuf::push buffers and with_file_name as join chains; site_fix reads a push-built buffer as of
+                             the point where it is read (the slicer's concat is flow-insensitive)
+  deep_nf                    ... plus projections of tuples / structs handed back by helpers and local closures
+  reopen / selection_open    element-wise stages (map / cloned / collect round trips) and filter stages before them are seen
+                             through: a collected Vec that is looped over later is the iteration it was collected from
+  fails_otherwise            a per-element decision whose other side fails the run (`if let Err(e) = step { return Err }`)
+                             selects nothing
+  combinator_tolerance / rebuilt_tolerance / ok_only_if_not_found
+                             the NotFound tolerance of the wipe as `.or_else(closure)` resp. as a match expression that
+                             rebuilds the Result; any other recovering stage swallows the failure (recovers)
+  membership / ok_gates      `names.contains(&t)` = `names.iter().any(|n| n == &t)`, also when checked in a gate helper `g(..)?`
+  option_default / option_arms_of_value   unwrap_or / unwrap_or_else / map_or(_else) / an if-let value
+  filled_form                a helper that fills a fresh Vec by push in one pass = filter().map().collect()
+  fold_accumulator           the map threaded through try_fold is the map its closure fills
+  binaries_fields            struct fields by type instead of by name
 """
 from .lib import iters
 from .lib.discard import result_fates, verdict
@@ -19,6 +37,30 @@ from .lib.value import canon, walk
 
 FN_CALL = ('std::ops::Fn::call', 'std::ops::FnMut::call_mut', 'std::ops::FnOnce::call_once')
 IT = iters.IT
+
+
+_SUBTYPE_SLICERS = {}
+
+
+def subtype_slicer(sl):
+    """a Slicer for which `x as T (Subtype)` casts are transparent.  rustc inserts such a cast where a closure that captures
+    a `&mut` borrow / has an annotated return type is handed to a generic adapter (`iter.try_for_each(|n| -> Result<..> {
+    map.insert(..) })`); the library's slicer keeps it as ('cast', closure, ty), which hides the closure from the effect
+    expansion.  (Wanted in lib/value.py: treat 'Subtype' like 'Unsize' in Slicer._rvalue.)"""
+    from .lib.value import Slicer
+    if getattr(sl, '_subtype_transparent', False):
+        return sl
+    key = id(sl)
+    if key not in _SUBTYPE_SLICERS:
+        class _S(Slicer):
+            _subtype_transparent = True
+
+            def _rvalue(self, fn, rv, seen, d, at):
+                if rv['r'] == 'cast' and 'Subtype' in str(rv.get('kind')):
+                    return self.operand(fn, rv['o'], seen, d)
+                return Slicer._rvalue(self, fn, rv, seen, d, at)
+        _SUBTYPE_SLICERS[key] = (sl, _S(sl.prog, sl.max_depth))
+    return _SUBTYPE_SLICERS[key][1]
 
 
 # ---- expansion ----------------------------------------------------------------------------------------
@@ -166,40 +208,58 @@ def error_flow(prog, e):
 
 def tolerates_only_not_found(E, f, c, targets):
     """in f, the Err arm of the Result of call c reaches `targets` (the blocks where work goes on) only through the
-    `error.kind() == ErrorKind::NotFound` edge"""
+    `error.kind() == ErrorKind::NotFound` edge — a boolean test (`==` / `!=`) or the NotFound arm of a `match error.kind()`
+    / `matches!(error.kind(), NotFound)`"""
+    from .lib.guards import _discr_info
     sl = E.slicer
     site = (f.path, c.bb)
-    arm = None
-    sw = None
+    from_site = lambda v: any(isinstance(x, tuple) and x and x[0] == 'call' and len(x) == 4 and x[3] == site for x in walk(v))
+    found = []      # (switch block, [blocks entered when the kind is NotFound], [blocks entered otherwise])
     for bi, blk in enumerate(f.blocks):
         t = blk['t']
-        if t['t'] != 'switch' or t.get('oty') != 'bool':
+        if t['t'] != 'switch':
             continue
-        v = strip(sl.operand(f, t['o']))
-        if not (v[0] == 'call' and v[1] in ('std::cmp::PartialEq::ne', 'std::cmp::PartialEq::eq') and len(v[2]) == 2):
-            continue
-        a, b = strip(v[2][0]), strip(v[2][1])
-        if a[0] == 'agg':
-            a, b = b, a
-        if not (b[0] == 'agg' and b[2] == 'NotFound' and a[0] == 'call' and a[1] == 'std::io::Error::kind'):
-            continue
-        if not any(x[0] == 'call' and len(x) == 4 and x[3] == site for x in walk(a)):
-            continue
+        if t.get('oty') == 'bool':
+            v = strip(sl.operand(f, t['o']))
+            if not (v[0] == 'call' and v[1] in ('std::cmp::PartialEq::ne', 'std::cmp::PartialEq::eq') and len(v[2]) == 2):
+                continue
+            a, b = strip(v[2][0]), strip(v[2][1])
+            if a[0] == 'agg':
+                a, b = b, a
+            if not (b[0] == 'agg' and b[2] == 'NotFound' and a[0] == 'call' and a[1] == 'std::io::Error::kind' and from_site(a)):
+                continue
+            zero = [tb for val, tb in t['targets'] if val == 0]
+            if not zero:
+                continue
+            fall, other = (zero[0], t['else']) if v[1].endswith('::ne') else (t['else'], zero[0])
+            found.append((bi, [fall], [other]))
+        else:
+            info = _discr_info(f, bi, t['o'])
+            if not info or not str(info[2] or '').endswith('ErrorKind'):
+                continue
+            kv = strip(sl.local(f, info[0][0])) if len(info[0]) >= 1 else ('unknown',)
+            if not (kv[0] == 'call' and kv[1] == 'std::io::Error::kind' and from_site(kv)):
+                continue
+            nfv = [val for val, n in info[1].items() if n == 'NotFound']
+            fall = [tb for val, tb in t['targets'] if val in nfv]
+            other = [tb for val, tb in t['targets'] if val not in nfv] + [t['else']]
+            other = [b for b in other if f.blocks[b]['t']['t'] != 'unreachable']
+            if fall:
+                found.append((bi, fall, other))
+    if not targets:
+        return False
+    for bi, fall, other in found:
+        arm = None
         for cd in conditions(f, bi, sl):
-            s = strip(cd.subject) if cd.subject is not None else None
-            if cd.kind == 'variant' and cd.outcome == frozenset({'Err'}) and s is not None and s[0] == 'call' and len(s) == 4 and s[3] == site:
+            s_ = strip(cd.subject) if cd.subject is not None else None
+            if cd.kind == 'variant' and cd.outcome == frozenset({'Err'}) and s_ is not None and s_[0] == 'call' and len(s_) == 4 and s_[3] == site:
                 arm = cd.target
-                sw = (bi, v[1].endswith('::ne'), t)
-    if arm is None or sw is None or not targets:
-        return False
-    bi, is_ne, t = sw
-    zero = [tb for val, tb in t['targets'] if val == 0]
-    if not zero:
-        return False
-    # the edge on which kind == NotFound
-    fall, other = (zero[0], t['else']) if is_ne else (t['else'], zero[0])
-    through = arm == bi or not (set(targets) & f.reachable(arm, stop=[bi]))
-    return through and bool(set(targets) & f.reachable(fall)) and not (set(targets) & f.reachable(other))
+        if arm is None:
+            continue
+        through = arm == bi or not (set(targets) & f.reachable(arm, stop=[bi]))
+        if through and any(set(targets) & f.reachable(b) for b in fall) and not any(set(targets) & f.reachable(b) for b in other if b not in fall):
+            return True
+    return False
 
 
 # ---- selections ---------------------------------------------------------------------------------------
@@ -416,7 +476,7 @@ def every_element(E, e):
         return 'none', 'not inside an iteration', None
     if len(sel.iterations) != 1:
         return 'unproven', 'nested iterations', None
-    it = sel.iterations[0]
+    it = reopen(sl, sel.iterations[0])
     if it.recv is None:
         return 'unproven', 'a loop whose collection is not known', it
     if any(fl == 'trunc' for _, _, fl in iters.alts(sl, it.recv)) or \
@@ -426,10 +486,190 @@ def every_element(E, e):
         return 'violated', 'a filter stage drops elements: %s' % '; '.join(vstr(p[0])[:80] for p in it.preds), it
     if it.opaque:
         return 'unproven', 'an adapter whose selection cannot be stated', it
-    if sel.guards:
-        return 'violated', 'runs only under a per-element condition: %s' % '; '.join(vstr(vs[0][0])[:80] for _, _, vs in sel.guards), it
+    # a decision whose other side makes the whole run fail ("the step before succeeded": `if let Err(e) = step { return
+    # Err(..) }`) selects nothing: the iterations that do not fail all take it
+    guards = [g for g in sel.guards if not fails_otherwise(E, e, it, g)]
+    if guards:
+        return 'violated', 'runs only under a per-element condition: %s' % '; '.join(vstr(vs[0][0])[:80] for _, _, vs in guards), it
     vd, why = _all_paths_reach(E, e, it)
     return vd, why, it
+
+
+def fails_otherwise(E, e, it, guard):
+    """guard = (level, Cond, views) of a selection: every other way out of the decision ends in the failure of its function
+    (no success site and no next iteration is reachable), and that failure is handed up (`?` / returned) by every call
+    between the iteration and the decision — so the run as a whole fails instead of skipping the element"""
+    j, cd, _ = guard
+    ls = levels(e)
+    if j >= len(ls) or cd.target is None:
+        return False
+    f = ls[j][0].fn
+    if cd.fn is not f:
+        return False
+    others = [b for b in f.succs(cd.sw_bb) if b != cd.target]
+    sites = {st.bb for st in E.sites(f)}
+    if not others or not sites or not (f.ret or '').startswith('std::result::Result<'):
+        return False
+    forbidden = set(sites) | {cd.target}
+    for L in E.loops(f):
+        if cd.sw_bb in L.body:
+            forbidden.add(L.header)
+    for o in others:
+        if f.blocks[o]['t']['t'] == 'unreachable':
+            continue
+        if o in forbidden or (set(f.reachable(o)) & forbidden):
+            return False
+    for k in range(it.level, j):
+        c = ls[k][0]
+        g = ls[k + 1][0].fn
+        if not _direct(E, c, g) or not (c.dty or '').startswith('std::result::Result<'):
+            return False
+        fates = result_fates(E.prog, c.fn, c)
+        if not fates or any(ft.kind not in ('propagated', 'returned') for ft in fates):
+            return False
+    return True
+
+
+def _not_found_test(v, oc, is_err):
+    """is (v, outcome) the decision `<error>.kind() == ErrorKind::NotFound` for an error selected by is_err"""
+    v, oc = _peel_not(strip(v), oc)
+    v = strip(v)
+    if v[0] == 'call' and len(v[2]) == 2 and v[1] in ('std::cmp::PartialEq::ne', 'std::cmp::PartialEq::eq'):
+        a, b = strip(v[2][0]), strip(v[2][1])
+        if a[0] == 'agg':
+            a, b = b, a
+        if b[0] == 'agg' and b[2] == 'NotFound' and a[0] == 'call' and a[1] == 'std::io::Error::kind' and a[2] and is_err(a[2][0]):
+            return oc is v[1].endswith('::eq')
+    return False
+
+
+def ok_only_if_not_found(E, g):
+    """g: io::Error -> Result (closure handed to `or_else`, or a private function): every success of g lies under the
+    decision `kind() == NotFound` on its own argument"""
+    sl = E.slicer
+    first = 2 if g.kind == 'Closure' else 1
+    is_err = lambda v: any(isinstance(x, tuple) and x and x[0] == 'param' and x[1] == g.path and x[2] >= first - 1 for x in walk(v))
+    sites = E.sites(g)
+    if not sites:
+        return False
+    for st in sites:
+        ok = False
+        for cd in conditions(g, st.bb, sl):
+            if cd.kind == 'bool':
+                ok = ok or any(_not_found_test(v, oc, is_err) for v, oc in cd.views())
+            elif cd.kind == 'variant' and cd.subject is not None:
+                sj = strip(cd.subject)
+                ok = ok or (cd.outcome == frozenset({'NotFound'}) and sj[0] == 'call' and sj[1] == 'std::io::Error::kind' and bool(sj[2]) and is_err(sj[2][0]))
+        if not ok:
+            return False
+    return True
+
+
+def result_chain(E, f, c):
+    """the Result combinator stages the outcome of call c is handed through in f: [(Call, short name)], e.g.
+    `c(..).or_else(g).map_err(h)` -> [(.., 'or_else'), (.., 'map_err')]"""
+    sl = E.slicer
+    out, cur = [], c
+    for _ in range(8):
+        site = (f.path, cur.bb)
+        nxt = None
+        for d in f.calls:
+            if d.indirect or not d.args or d is cur:
+                continue
+            v = strip(sl.operand(f, d.args[0]))
+            if v[0] == 'call' and len(v) == 4 and v[3] == site and (d.decl or d.name or '').startswith('std::result::Result::<T, E>::'):
+                nxt = d
+                break
+        if nxt is None:
+            break
+        out.append((nxt, (nxt.decl or nxt.name).rsplit('::', 1)[1]))
+        cur = nxt
+    return out
+
+
+_RECOVER = ('or_else', 'or')
+
+
+def recovers(E, f, c):
+    """is the failure of call c handed to a stage that can turn it into a success (`or_else` / `or`)"""
+    return any(short in _RECOVER for _, short in result_chain(E, f, c))
+
+
+def combinator_tolerance(E, f, c, targets):
+    """the Result of call c (the wipe) is handed to `Result::or_else(<g>)` with g = ok_only_if_not_found (possibly through
+    `map_err` stages, which keep a failure a failure), and the failure of what comes out is reported: its Err side
+    never reaches `targets` (the blocks where work goes on)"""
+    sl = E.slicer
+    cur, seen_or_else = c, False
+    for nxt, short in result_chain(E, f, c):
+        if short == 'or_else' and len(nxt.args) == 2:
+            gv = strip(sl.operand(f, nxt.args[1]))
+            g = E.prog.fns.get(gv[1]) if gv[0] in ('closure', 'fnitem') else None
+            if g is None or not ok_only_if_not_found(E, g):
+                return False
+            seen_or_else = True
+        elif short in _RECOVER:
+            return False
+        elif short != 'map_err':
+            break
+        cur = nxt
+    if not seen_or_else:
+        return False
+    fates = result_fates(E.prog, f, cur)
+    if verdict(fates) != 'ok':
+        return False
+    # an explicit Err arm on the outcome must not go on to the work
+    site = (f.path, cur.bb)
+    for bi, blk in enumerate(f.blocks):
+        if blk['t']['t'] != 'switch':
+            continue
+        for tb in set(f.succs(bi)):
+            for cd in conditions(f, tb, sl):
+                sj = strip(cd.subject) if cd.subject is not None else None
+                if cd.sw_bb == bi and cd.kind == 'variant' and cd.outcome == frozenset({'Err'}) and sj is not None and sj[0] == 'call' and len(sj) == 4 and sj[3] == site:
+                    if set(targets) & set(f.reachable(cd.target)):
+                        return False
+    return True
+
+
+def rebuilt_tolerance(E, f, c, targets):
+    """the outcome of call c (the wipe) is rebuilt into a new Result by a `match` / `if let` expression — `let w = match
+    remove_dir_all(..) { Ok(()) => Ok(()), Err(e) if e.kind() == NotFound => Ok(()), Err(e) => Err(wrap(e)) }; w?` — : a success
+    is produced only for the wipe's own success or for NotFound, and the failure of the new Result is reported (its Err
+    side never reaches `targets`)"""
+    from .lib.discard import local_fates
+    sl = E.slicer
+    site = (f.path, c.bb)
+    at_site = lambda v: any(isinstance(x, tuple) and x and x[0] == 'call' and len(x) == 4 and x[3] == site for x in walk(v))
+    found = False
+    for local in range(1, len(f.locals)):
+        defs = f.whole_defs(local)
+        if len(defs) < 2 or not (f.local_ty(local) or '').startswith('std::result::Result<'):
+            continue
+        rows = arm_defs(f, local, sl)
+        if len(rows) != len(defs) or not any(cd.kind == 'variant' and cd.subject is not None and at_site(cd.subject) for _, _, conds in rows for cd in conds):
+            continue
+        for bi, v, conds in rows:
+            v = strip(v)
+            side = set()
+            nf = False
+            for cd in conds:
+                sj = strip(cd.subject) if cd.subject is not None else None
+                if cd.kind == 'variant' and sj is not None and sj[0] == 'call' and len(sj) == 4 and sj[3] == site and isinstance(cd.outcome, frozenset):
+                    side |= set(cd.outcome)
+                elif cd.kind == 'bool':
+                    nf = nf or any(_not_found_test(x, oc, at_site) for x, oc in cd.views())
+                elif cd.kind == 'variant' and sj is not None and sj[0] == 'call' and sj[1] == 'std::io::Error::kind' and sj[2] and at_site(sj[2][0]):
+                    nf = nf or cd.outcome == frozenset({'NotFound'})
+            if v[0] != 'agg' or v[2] not in ('Ok', 'Err'):
+                return False
+            if v[2] == 'Ok' and not (side == {'Ok'} or (side == {'Err'} and nf)):
+                return False
+        fates = local_fates(E.prog, f, local, {}, set(), 0)
+        if verdict(fates) != 'ok' or any(ft.kind == 'matched' for ft in fates):
+            return False
+        found = True
+    return found
 
 
 def _all_paths_reach(E, e, it, skip_edges=None, exhausted=False):
@@ -575,6 +815,454 @@ def call_closure_value(sl, v):
     return sl.apply_closure(recv, tv[1])
 
 
+# ---- robustness round 4: path normal form, element-wise stages ------------------------------------------------
+_ELEMENTWISE = {IT + n for n in ('map', 'inspect', 'cloned', 'copied', 'enumerate', 'rev', 'peekable', 'by_ref', 'fuse')}
+_OK_PRESERVING = ('std::result::Result::<T, E>::map_err',)
+
+
+def reopen(sl, it):
+    """an Iteration that decompose() leaves opaque only because of element-wise stages (map / inspect / cloned / .. and
+    collect round trips: one output element per input element, in order, none dropped): its selection *can* be stated —
+    the elements of the base collection that pass the filter stages (each filter read on the element of its own receiver),
+    the element value being the stages applied to it.  (`for (a, b) in &pairs` over `pairs = xs.iter().map(|x| ..)
+    .collect::<Vec<_>>()` is the same iteration as `for x in &xs`; `xs.iter().filter(p).map(f).collect()` then a loop is
+    `for x in xs.iter().filter(p)`.)"""
+    if it is None or not it.opaque or it.recv is None:
+        return it
+    v = it.recv
+    filters = []
+    for _ in range(24):
+        v = strip(v)
+        if v[0] != 'call' or not v[2]:
+            break
+        name = v[1]
+        if name == IT + 'filter' and len(v[2]) == 2:
+            filters.append((v[2][1], v[2][0]))
+            v = v[2][0]
+        elif name in _ELEMENTWISE or name in iters.COLLECTING or name in iters.SAME or \
+                (iters._is_source(name) and name.endswith(iters.SAME_ELEMS) and len(v[2]) == 1):
+            v = v[2][0]
+        else:
+            break
+    if v[0] == 'call' and v[1].startswith(('std::iter::', 'core::iter::')):
+        return it     # another adapter (take, zip, chain, filter_map, ..): stays as decompose left it
+    if any(st[3] for st in iters.stages(strip(it.recv), with_stop=True)):
+        return it
+    al = iters.alts(sl, it.recv)
+    if len(al) != 1 or al[0][1] is None or bool(al[0][2]) != bool(filters):
+        return it
+    preds = []
+    for clv, rv in filters:
+        ra = iters.alts(sl, rv)
+        r = sl.apply_closure(clv, (ra[0][0],)) if len(ra) == 1 else None
+        if r is None:
+            return it
+        preds.append(_peel_not(r))
+    it.base, it.elem, it.preds, it.opaque = al[0][1], al[0][0], preds, False
+    return it
+
+
+def entry_of(it):
+    """the element of the base collection an iteration's element is derived from (`unwrap(next(base))`), else its element"""
+    if it.elem is None or it.base is None:
+        return it.elem
+    for x in walk(it.elem):
+        if isinstance(x, tuple) and x and x[0] == 'unwrap' and x[1][0] == 'call' and x[1][1] == 'std::iter::Iterator::next' and x[1][2] and same(x[1][2][0], it.base):
+            return x
+    return it.elem
+
+
+def selection_open(E, e):
+    """selection() with element-wise stages seen through (reopen)"""
+    sel = selection(E, e)
+    for it in sel.iterations:
+        reopen(E.slicer, it)
+    return sel
+
+
+# The slicer reads a buffer that is pushed to (`PathBuf::push`, `String::push_str`) flow-insensitively: its value is the
+# base with *all* pushes of the function, wherever it is read.  For a path that is read between two pushes
+# (`p.push("bin"); create_dir_all(&p); p.push("build"); copy(.., &p)`) the value at the read is the base with the pushes
+# that have happened by then.  (Local workaround: lib/value.py `_with_updates` would ideally take the reading position.)
+def _read_blocks(f, op, local, bb, seen=None, depth=0):
+    """blocks in which `local` is read on the way into operand `op` used in block bb (through reference / copy
+    temporaries and the arguments of calls whose result flows into the operand)"""
+    from .lib.mir import _rvalue_places
+    seen = set() if seen is None else seen
+    pl = op_place(op) if isinstance(op, dict) else op
+    if not pl:
+        return set()
+    t = pl[0]
+    if t == local:
+        return {bb}
+    if (t, bb) in seen or depth > 10 or t <= f.argc:
+        return set()
+    seen.add((t, bb))
+    out = set()
+    for d in list(f.whole_defs(t)) + list(f.partial_defs(t)):
+        if d[0] == 'stmt':
+            for p2, how in _rvalue_places(d[3]):
+                out |= _read_blocks(f, p2, local, d[1], seen, depth + 1)
+        elif d[0] == 'call' and d[3] is not None:
+            for a in d[3].args:
+                out |= _read_blocks(f, a, local, d[1], seen, depth + 1)
+    return out
+
+
+def _appends_before(E, f, app, B):
+    """indices of the appends that have happened whenever block B runs; None when some append may or may not have"""
+    kept = []
+    for i, c in enumerate(app):
+        if c.bb != B and f.dominates(c.bb, B) and not f.in_loop(c.bb):
+            kept.append(i)
+        elif c.bb == B:
+            if f.in_loop(B):
+                return None
+        elif B in f.reachable(c.bb):
+            return None
+    return tuple(kept)
+
+
+def site_fix(E, e, v):
+    """value v of effect e (its path / an argument, in the entry function's terms) with every push-built buffer read as
+    of the point where it is read for this effect; None when that cannot be decided"""
+    if v is None or not any(isinstance(x, tuple) and x and x[0] == 'concat' for x in walk(v)):
+        return v
+    sl = E.slicer
+    for call, m in levels(e):
+        f = call.fn
+        sl._appends(f, -1)
+        idx = sl._cache.get(('appends', f.path)) or {}
+        for local, app in idx.items():
+            raw = strip(sl.local(f, local))
+            if raw[0] != 'concat' or len(raw[2]) != len(app):
+                continue
+            whole = E.subst(raw, m)
+            if not any(x == whole for x in walk(v)):
+                continue
+            reads = set()
+            for a in call.args:
+                reads |= _read_blocks(f, a, local, call.bb)
+            if not reads:
+                return None
+            ks = {_appends_before(E, f, app, B) for B in reads}
+            if len(ks) != 1 or None in ks:
+                return None
+            kept = ks.pop()
+            cut = E.subst(('concat', raw[1], tuple(raw[2][i] for i in kept), raw[3]) if kept else raw[1], m)
+            v = _rewrite_all(v, lambda x: cut if x == whole else None)
+    return v
+
+
+def open_views(sl, p):
+    """pred_views plus, for a test that calls a local closure / closure value directly (`let is_selected = |id| ..;
+    if is_selected(id)`), what the closure returns for these arguments"""
+    out = []
+    for v, oc in pred_views(p):
+        out.append((v, oc))
+        w = _map_values(v, lambda x: call_closure_value(sl, x))
+        if w != v:
+            w, woc = _peel_not(strip(w), oc)
+            out.append((w, woc))
+    return out
+
+
+_SAME_VALUE_FN = ('::clone', '::to_owned', '::to_path_buf', '::into', '::from', '::to_string', '::as_ref', '::borrow')
+
+
+def _identity_fn(sl, f):
+    """f maps a value to (a copy / conversion of) the same path: `Clone::clone`, `|p| p.to_path_buf()`, .."""
+    f = strip(f)
+    if f[0] == 'fnitem':
+        return f[1].endswith(_SAME_VALUE_FN)
+    if f[0] == 'closure':
+        probe = ('unknown', '__probe__')
+        r = sl.apply_closure(f, (probe,))
+        return r is not None and peel_path(r) == probe
+    return False
+
+
+def option_default(sl, v):
+    """`opt.unwrap_or(d)` / `opt.unwrap_or_else(|| d)` / `opt.map_or(d, same)` / `opt.map_or_else(|| d, same)` (same: a
+    copy / conversion of the payload) -> (opt, d); None for anything else"""
+    v = strip(v)
+    if v[0] != 'call' or not v[2]:
+        return None
+    short = v[1].rsplit('::', 1)[1]
+    if not ('Option' in v[1]):
+        return None
+    dflt = None
+    if short in ('unwrap_or', 'unwrap_or_else') and len(v[2]) == 2:
+        dflt = v[2][1]
+    elif short in ('map_or', 'map_or_else') and len(v[2]) == 3 and _identity_fn(sl, v[2][2]):
+        dflt = v[2][1]
+    if dflt is None:
+        return None
+    d = strip(dflt)
+    if short in ('unwrap_or_else', 'map_or_else'):
+        if d[0] != 'closure':
+            return None
+        d = strip(sl.apply_closure(d, ()) or ('unknown',))
+    elif d[0] == 'closure':
+        d = strip(sl.apply_closure(d, ()) or ('unknown',))
+    return v[2][0], d
+
+
+_FOLD = (IT + 'try_fold', IT + 'fold')
+
+
+def fold_accumulator(sl, v):
+    """v = `iter.fold(init, |acc, x| { ..; acc })` / `iter.try_fold(init, |mut acc, x| { ..; Ok(acc) })?` whose closure hands
+    back its own accumulator on every success: the result *is* that accumulator (the object the closure body fills)
+    -> ('param', closure path, 1) pattern as (closure path), else None"""
+    v = strip(v)
+    if v[0] != 'call' or v[1] not in _FOLD or len(v[2]) != 3:
+        return None
+    clo = strip(v[2][2])
+    g = sl.prog.fns.get(clo[1]) if clo[0] == 'closure' else None
+    if g is None:
+        return None
+    ret = sl.local(g, 0)
+    if v[1].endswith('try_fold'):
+        ret = sl.mk_unwrap(ret, 1)
+    ret = strip(ret)
+    if ret[0] == 'param' and ret[1] == g.path and ret[2] == 1:
+        return g.path
+    return None
+
+
+def same_collection(sl, a, b):
+    """same_through_helpers, or: one is the accumulator parameter of a fold closure and the other that fold's result"""
+    if same_through_helpers(sl, a, b):
+        return True
+    for x, y in ((a, b), (b, a)):
+        gp = fold_accumulator(sl, x)
+        y = strip(y)
+        if gp is not None and y[0] == 'param' and y[1] == gp and y[2] == 1:
+            return True
+    return False
+
+
+def _project(sl, v):
+    """`<x>.k` where x is (the success payload of) a tuple / struct that is known: the component"""
+    if v[0] != 'field' or not isinstance(v[2], str):
+        return None
+    b = v[1]
+    if b[0] == 'unwrap':
+        b = strip(sl.mk_unwrap(b[1], 1))
+    else:
+        b = strip(b)
+    if b[0] in ('tuple', 'agg'):
+        r = sl._field(b, v[2])
+        if r is not None and r != v and r[0] != 'field':
+            return r
+        if r is not None and r[0] == 'field' and r[1] is not b:
+            return r
+    return None
+
+
+def deep_nf(sl, v, keep=None):
+    """norm (closure calls applied, private helpers inlined) plus projections resolved: a value handed back inside a tuple /
+    private struct by a helper or a local closure (`let (a, b) = helper()?`, `helper().map(|b| (a, b))?`) is the value
+    that was put in"""
+    if v is None:
+        return None
+    keep = KEEP if keep is None else keep
+    for _ in range(3):
+        v0 = v
+        v = norm(sl, v, keep)
+        v = _rewrite_all(v, lambda x: _project(sl, x))
+        if v == v0:
+            break
+    return v
+
+
+def option_arms_of_value(E, e, idx, is_subject):
+    """the argument `idx` of effect e's own call is a value produced by a decision on an Option selected by `is_subject`
+    (`let d = if let Some(p) = &opt { p.clone() } else { dflt };` / a `match`): -> {'Some': [values], 'None': [values]} in the
+    entry function's terms, or None when it is not such a value (or an arm cannot be attributed)"""
+    sl = E.slicer
+    c, m = levels(e)[-1]
+    f = c.fn
+    if idx >= len(c.args):
+        return None
+    loc = phi_local_of(f, c.args[idx], through_proj=False)
+    if loc is None:
+        return None
+    out = {'Some': [], 'None': []}
+    for bi, v, conds in arm_defs(f, loc, sl):
+        side = set()
+        for cd in conds:
+            if cd.kind == 'variant' and cd.subject is not None:
+                sj = strip(E.subst(cd.subject, m))
+                while sj[0] == 'call' and len(sj[2]) == 1 and sj[1].endswith(_OPT_VIEW):
+                    sj = strip(sj[2][0])
+                if is_subject(sj) and isinstance(cd.outcome, frozenset) and len(cd.outcome) == 1:
+                    side |= set(cd.outcome)
+            elif cd.kind == 'bool':
+                for x, oc in cd.views():
+                    x, oc = _peel_not(E.subst(x, m), oc)
+                    x = strip(x)
+                    if x[0] == 'call' and len(x[2]) == 1 and x[1].endswith(('::is_some', '::is_none')) and is_subject(x[2][0]) and isinstance(oc, bool):
+                        side.add('Some' if (oc == x[1].endswith('::is_some')) else 'None')
+        if len(side) != 1 or next(iter(side)) not in out:
+            return None
+        out[next(iter(side))].append(E.subst(v, m))
+    return out
+
+
+def ok_gates(E, f, bb):
+    """boolean decisions guaranteed at block bb of f by *gate* calls: a private workspace function g returning a Result that
+    is called on every path to bb and whose success (`g(..)?` / the Ok arm) bb lies under — whatever holds at every success
+    site of g holds at bb (`ensure_target_exists(&names, &t)?; build(t)` is `if names.contains(&t) { build(t) } else
+    { return Err(..) }`).  -> [[(value in f's terms, outcome) views]]"""
+    sl = E.slicer
+    out = []
+    conds = conditions(f, bb, sl)
+    for c in f.calls:
+        if c.indirect or c.bb == bb or not f.dominates(c.bb, bb) or not (c.dty or '').startswith('std::result::Result<'):
+            continue
+        gs = [g for g in E.prog.callee_fns(c) if g.kind != 'Closure' and g is not f]
+        if len(gs) != 1:
+            continue
+        g = gs[0]
+        site = (f.path, c.bb)
+        passed = any(cd.kind == 'variant' and cd.subject is not None and cd.outcome in (frozenset({'Continue'}), frozenset({'Ok'})) and
+                     any(isinstance(x, tuple) and x and x[0] == 'call' and len(x) == 4 and x[3] == site for x in walk(cd.subject)) for cd in conds)
+        sites = E.sites(g)
+        if not passed or not sites:
+            continue
+        m = E.call_mapping(f, c, g, {})
+        common, keep = None, {}
+        for st in sites:
+            cur = {}
+            for cd in conditions(g, st.bb, sl):
+                if cd.kind == 'bool':
+                    cur[(canon(strip(cd.value)), cd.outcome)] = cd
+            common = set(cur) if common is None else (common & set(cur))
+            keep.update(cur)
+        for k in (common or ()):
+            out.append([(E.subst(v, m), oc) for v, oc in keep[k].views()])
+    return out
+
+
+def binaries_fields(prog, bbf):
+    """(type path, field holding the main binary's path, field holding the additional binaries' map) of the struct
+    build_buildpack_binaries hands back — by field *type* (one PathBuf, one map), so that renamed fields are still read"""
+    dflt = ('BuildpackBinaries', 'buildpack_target_binary_path', 'additional_target_binary_paths')
+    for path, a in prog.adts.items():
+        if a.get('kind') != 'struct' or path not in (bbf.ret or '') or len(a.get('variants', ())) != 1:
+            continue
+        fs = a['variants'][0]['fields']
+        mains = [f['name'] for f in fs if f.get('head') == 'std::path::PathBuf']
+        maps = [f['name'] for f in fs if str(f.get('head', '')).endswith(('::HashMap', '::BTreeMap')) and 'std::path::PathBuf' in f.get('ty', '')]
+        if len(mains) == 1 and len(maps) == 1:
+            return path, mains[0], maps[0]
+    return dflt
+
+
+def membership(sl, v, oc):
+    """(collection, item, outcome) when the decision (v, oc) reads `item is among collection`:
+    `coll.contains(&x)`, `coll.iter().any(|e| e == x)` (either operand order, `!=` negated)"""
+    v, oc = _peel_not(strip(v), oc)
+    v = strip(v)
+    if v[0] != 'call':
+        return None
+    if v[1].endswith('::contains') and len(v[2]) == 2:
+        return v[2][0], v[2][1], oc
+    if v[1] == IT + 'any' and len(v[2]) == 2:
+        base, filters, opaque = decompose(sl, v[2][0])
+        ra = iters.alts(sl, v[2][0])
+        if filters or opaque or len(ra) != 1 or ra[0][2]:
+            return None
+        el = ra[0][0]
+        r = sl.apply_closure(v[2][1], (el,))
+        if r is None:
+            return None
+        r, roc = _peel_not(strip(r), True)
+        r = strip(r)
+        if r[0] == 'call' and len(r[2]) == 2 and ((r[1].endswith('::eq') and roc is True) or (r[1].endswith('::ne') and roc is False)):
+            a, b = peel_path(r[2][0]), peel_path(r[2][1])
+            if same(a, el) and not any(same(x, el) for x in walk(b)):
+                return base, b, oc
+            if same(b, el) and not any(same(x, el) for x in walk(a)):
+                return base, a, oc
+    return None
+
+
+_JOIN = 'std::path::Path::join'
+
+
+def _pathish(prog, v):
+    """is value v a path (so that pushing onto a copy of it is `join`, not string concatenation)"""
+    v = strip(v)
+    if v[0] == 'call':
+        if len(v) == 4 and v[3] is not None:
+            f = prog.fns.get(v[3][0])
+            c = f.call_at(v[3][1]) if f is not None else None
+            if c is not None and c.dty:
+                return 'PathBuf' in c.dty or c.dty.endswith('::Path')
+        g = prog.fns.get(v[1])
+        return g is not None and 'PathBuf' in (g.ret or '')
+    if v[0] == 'param':
+        f = prog.fns.get(v[1])
+        return f is not None and v[2] < len(f.args) and 'Path' in str(f.args[v[2]])
+    return False
+
+
+def _path_rewrite(v, prog=None):
+    """path-building spellings as `join` chains: a PathBuf built by push -> join(join(base, a), b);
+    join(x, n).with_file_name(m) -> join(x, m) (n a single literal component)"""
+    if v[0] == 'concat' and len(v) >= 3 and v[2]:
+        if prog is None or (len(v) > 3 and v[3]) or not _pathish(prog, v[1]):
+            return None        # a string buffer / pushes onto a fresh (empty) buffer
+        out = v[1]
+        for x in v[2]:
+            out = ('call', _JOIN, (out, x), None)
+        return out
+    if v[0] == 'call' and v[1].endswith('::with_file_name') and len(v[2]) == 2:
+        r = peel_path(v[2][0])
+        if r[0] == 'call' and r[1].endswith('::join') and len(r[2]) == 2:
+            c = const_of(r[2][1])
+            if isinstance(c, str) and c and '/' not in c and c not in ('.', '..'):
+                return ('call', _JOIN, (r[2][0], v[2][1]), None)
+    return None
+
+
+def _rewrite_all(v, f, depth=0):
+    """bottom-up rewriting of every sub-value"""
+    if not isinstance(v, tuple) or not v or depth > 40:
+        return v
+    if isinstance(v[0], str) and v[0] in ('const', 'param', 'fnitem', 'constitem', 'unknown', 'closure_env', 'upvar'):
+        return v
+    v = tuple(_rewrite_all(x, f, depth + 1) if isinstance(x, tuple) else x for x in v)
+    if isinstance(v[0], str):
+        r = f(v)
+        if r is not None:
+            return r
+    return v
+
+
+def path_nf(sl, v, keep=()):
+    """a path value in normal form: local closures applied, private helpers / layout structs / tuples inlined, push-built
+    buffers and with_file_name as join chains"""
+    if v is None:
+        return None
+    v = norm(sl, v, keep)
+    return _rewrite_all(v, lambda x: _path_rewrite(x, sl.prog))
+
+
+def comps_nf(sl, v, is_root, keep=()):
+    """components of a path value (any spelling, see path_nf) below a root: literal components as str, others as values;
+    None when it does not lie below the root"""
+    if v is None:
+        return None
+    cs = path_comps(path_nf(sl, v, keep), lambda r: is_root(strip(r)))
+    if cs is None:
+        return None
+    return tuple(const_of(x) if isinstance(const_of(x), str) else strip(x) for x in cs)
+
+
 # ---- R7 / R8: every node is packaged; end-to-end normal forms in `execute`'s terms ---------------------------
 GD = 'libcnb_package::dependency_graph::get_dependencies'
 GRAPH = 'libcnb_package::buildpack_dependency_graph::build_libcnb_buildpacks_dependency_graph'
@@ -625,7 +1313,7 @@ def node_of(v, field):
 
 
 def rules_e2e(ctx, rep, ex, dest):
-    prog, sl = ctx.prog, ctx.slicer
+    prog, sl = ctx.prog, subtype_slicer(ctx.slicer)
     from .lib.effects import Effects
     rep.rule('R8', 'end to end, in `execute`\'s terms: what is copied / built for a node comes from that node\'s own directory and lands in that node\'s output directory')
     E = Effects(prog, sl)
@@ -636,7 +1324,7 @@ def rules_e2e(ctx, rep, ex, dest):
     # the functions providing the binary target names / the buildpack's own target stay opaque anchors (R10 decides on them)
     roles = find_roles(prog, sl)
     keep = tuple(KEEP) + roles.keep()
-    nrm = lambda v_: norm(sl, v_, keep)
+    nrm = lambda v_: path_nf(sl, v_, keep)
     nd = nrm(dest)
     is_pkgdir = lambda v: (v[0] == 'call' and v[1] == AP) or (v[0] == 'phi' and v[1] and all(strip(x)[0] == 'call' and strip(x)[1] == AP for x in v[1]))
     dc = path_comps(nd, is_pkgdir)
@@ -657,14 +1345,22 @@ def rules_e2e(ctx, rep, ex, dest):
     rep.check(ok, 'R8', 'dest-shape', _w(ex), 'output directory = <package dir>/<..>/<buildpack id with every "/" replaced>: one directory per id, none inside another',
               'the directory name is not the buildpack id with every "/" replaced (ids with several "/" nest inside / collide with other output directories): %s' % vstr(dc[-1])[:200])
     under = lambda v: path_comps(nrm(v), lambda r: same(r, nd))
+    _pc = {}
+
+    def under_e(e):
+        # the effect's path as of the point where a push-built buffer is read for it (site_fix)
+        if id(e) not in _pc:
+            fx = site_fix(E, e, e.path)
+            _pc[id(e)] = under(fx if fx is not None else e.path)
+        return _pc[id(e)]
     in_loop = lambda e: bool(selection(E, e).iterations)
     # everything that is mutated while a node is packaged lies in that node's output directory
-    outside = [e for e in may if e.kind in MUT and e.path is not None and in_loop(e) and under(e.path) is None]
+    outside = [e for e in may if e.kind in MUT and e.path is not None and in_loop(e) and under_e(e) is None]
     rep.check(not outside, 'R8', 'inside-dest', outside[0].where() if outside else _w(ex), 'every file-system mutation of the packaging loop lies in the node\'s output directory',
               'the packaging loop mutates paths outside the node\'s output directory: %s' % '; '.join('%s %s' % (e.kind, vstr(nrm(e.path))[:120]) for e in outside[:3]))
     # buildpack.toml <- <node dir>/buildpack.toml, same node
     copies = [e for e in may if e.call is not None and e.call.is_('std::fs::copy') and e.args]
-    desc = [e for e in copies if under(e.path) is not None and tuple(const_of(x) for x in under(e.path)) == ('buildpack.toml',)]
+    desc = [e for e in copies if under_e(e) is not None and tuple(const_of(x) for x in under_e(e)) == ('buildpack.toml',)]
     good = bool(desc)
     for e in desc:
         sc = path_comps(nrm(e.args[0]), lambda r: node_of(r, 'path') is not None and same(node_of(r, 'path'), node))
@@ -672,7 +1368,7 @@ def rules_e2e(ctx, rep, ex, dest):
     rep.check(good, 'R8', 'descriptor-source', desc[0].where() if desc else _w(ex), 'buildpack.toml of a node is copied from that node\'s own directory (%d writer(s))' % len(desc),
               'buildpack.toml in the output directory is not a copy of <node.path>/buildpack.toml of the node being packaged')
     # bin/build <- <target dir of the node's own cargo metadata>/<triple>/<profile dir>/<main target of that metadata>
-    mains = [e for e in copies if under(e.path) is not None and tuple(const_of(x) for x in under(e.path)) == ('bin', 'build')]
+    mains = [e for e in copies if under_e(e) is not None and tuple(const_of(x) for x in under_e(e)) == ('bin', 'build')]
     spawns = [e for e in may if e.kind == 'SPAWN' and in_loop(e)]
     triples = []
     good = bool(spawns)
@@ -748,7 +1444,7 @@ def success_points(E, fn, depth=0):
 
 
 def rules_build_binary(ctx, rep):
-    prog, sl = ctx.prog, ctx.slicer
+    prog, sl = ctx.prog, subtype_slicer(ctx.slicer)
     from .lib.effects import Effects
     rep.rule('R9', 'build_binary: the artifact path handed back is the one `cargo build` wrote for this triple / profile / target, and only after a successful build')
     bf = prog.fns.get(BUILD)
@@ -777,7 +1473,7 @@ def rules_build_binary(ctx, rep):
     rep.check(good, 'R9', 'exit-status', _w(bf), 'the binary path is handed back only when cargo\'s exit status is success()',
               'build_binary can return Ok(<binary path>) although `cargo build` did not exit successfully: a stale artifact of an earlier build would be packaged')
     # (b) the path
-    rv = sl.inline_deep(sl.mk_unwrap(sl.local(bf, 0), 1), depth=6)
+    rv = path_nf(sl, sl.mk_unwrap(sl.local(bf, 0), 1))      # helpers inlined, a push-built buffer as a join chain
     sc = path_comps(rv, lambda r: r[0] == 'field' and r[2] == 'target_directory' and is_param(1)(r[1]))
     dirs = select_map(sc[1]) if sc is not None and len(sc) == 3 else None
     subj = strip(strip(sc[1])[1]) if dirs is not None else None
@@ -1003,7 +1699,7 @@ def _int_guards(fn, bb, sl):
     return out
 
 
-def _names_value(sl, v):
+def _names_value(sl, v, inline=True):
     """the collection of binary target names with Option plumbing removed: `root_package().map(f).unwrap_or_default()`
     -> f(<root package>)"""
     v = strip(v)
@@ -1018,7 +1714,7 @@ def _names_value(sl, v):
             v = strip(rest[0])
         else:
             break
-    return sl.inline_deep(v, depth=6)
+    return sl.inline_deep(v, depth=6) if inline else v
 
 
 def _is_empty_coll(v):
@@ -1044,9 +1740,88 @@ def _is_root_pkg(v, md_pred):
     return v[0] == 'call' and v[1] == 'cargo_metadata::Metadata::root_package' and len(v[2]) == 1 and md_pred(strip(v[2][0]))
 
 
-def names_shape(sl, v, md_pred):
-    """is v `names of all targets t of the root package with t.is_bin()`?  -> (verdict, reason)"""
+class Filled:
+    """a fresh collection filled by one push site in one pass over `coll`: per-element decisions `tests` (bool views) /
+    `other` (anything else), pushed value `payload`, element of the pass `elem` — all in the terms of the value's context"""
+    def __init__(self, verdict, why, coll=None, elem=None, tests=(), other=(), payload=None):
+        self.verdict, self.why, self.coll, self.elem, self.tests, self.other, self.payload = verdict, why, coll, elem, list(tests), list(other), payload
+
+
+def filled_form(E0, v, depth=0):
+    """v is (a call of a private workspace function g returning) a fresh empty collection that g fills by `push` in one loop
+    / for_each pass and returns: `let mut out = Vec::new(); for x in C { if P(x) { out.push(V(x)) } } out` is
+    `C.iter().filter(P).map(V).collect()`.  -> Filled, or None when v is no such value"""
+    sl, prog = E0.slicer, E0.prog
+    v = strip(v)
+    if v[0] != 'call' or depth > 3:
+        return None
+    m = None
+    if _is_empty_coll(v) and len(v) == 4 and v[3] is not None:
+        g, vec = prog.fns.get(v[3][0]), v
+    else:
+        g = prog.fns.get(v[1])
+        if g is None or g.kind == 'Closure':
+            return None
+        rv = sl.local(g, 0)
+        if (g.ret or '').startswith(('std::result::Result<', 'std::option::Option<')):
+            rv = sl.mk_unwrap(rv, 1)
+        vec = strip(rv)
+        m = {(g.path, i): a for i, a in enumerate(v[2])}
+        if vec[0] == 'call' and not _is_empty_coll(vec):
+            # a helper that hands on what another helper filled
+            inner = filled_form(E0, vec, depth + 1)
+            if inner is None or inner.verdict != 'ok':
+                return inner
+            sb = lambda x: E0.subst(x, m) if x is not None else None
+            return Filled('ok', '', sb(inner.coll), sb(inner.elem), [[(sb(a), oc) for a, oc in t] for t in inner.tests], inner.other, sb(inner.payload))
+    if g is None or not (_is_empty_coll(vec) and len(vec) == 4 and vec[3] is not None and vec[3][0] == g.path):
+        return None
+    ret = sl.local(g, 0)
+    if (g.ret or '').startswith(('std::result::Result<', 'std::option::Option<')):
+        ret = sl.mk_unwrap(ret, 1)
+    if strip(ret) != vec:
+        return None         # not what g returns: where it is read relative to the pushes is not known
+    vd, why, coll, tests, other, payloads = _filled_by_push(E0, g, vec)
+    if vd != 'ok':
+        return Filled(vd, why)
+    from .lib.effects import Effects
+    E = Effects(prog, sl, vocab={PUSH: ('PUSH', 1)})
+    pe = [e for e in expand(E, g, 'may') if e.kind == 'PUSH' and e.args and strip(e.args[0]) == vec]
+    it = selection(E, pe[0]).iterations[0] if len(pe) == 1 else None
+    elem = it.elem if it is not None else None
+    sb = (lambda x: E0.subst(x, m) if x is not None else None) if m else (lambda x: x)
+    return Filled('ok', '', sb(coll), sb(elem), [[(sb(a), oc) for a, oc in t] for t in tests], other, sb(payloads[0]))
+
+
+def _names_shape_filled(fl, md_pred):
+    """names_shape for a collection filled by push (Filled)"""
+    if fl.verdict != 'ok':
+        return fl.verdict, fl.why
+    base = strip(peel_path(peel_coll(fl.coll)))
+    if not (base[0] == 'field' and base[2] == 'targets' and _is_root_pkg(base[1], md_pred)):
+        return 'unproven', 'does not range over the root package\'s targets: %s' % vstr(fl.coll)[:200]
+    t = fl.elem
+    pv = strip(peel_path(fl.payload))
+    if t is None or not (pv[0] == 'field' and pv[2] == 'name' and canon(strip(peel_path(pv[1]))) == canon(strip(peel_path(t)))):
+        return 'violated', 'the collected value is not the target\'s own name: %s' % vstr(fl.payload)[:160]
+    if fl.other:
+        return 'unproven', 'a per-target decision that is not a boolean test: %s' % fl.other
+    preds = [_peel_not(strip(views[0][0]), views[0][1]) for views in fl.tests]
+    good = [p for p in preds if strip(p[0])[0] == 'call' and strip(p[0])[1] == 'cargo_metadata::Target::is_bin' and p[1] is True and
+            canon(strip(peel_path(strip(p[0])[2][0]))) == canon(strip(peel_path(t)))]
+    if len(preds) != 1 or len(good) != 1:
+        return 'violated', 'the only per-target condition must be target.is_bin(): %s' % [vstr(p[0])[:80] for p in preds]
+    return 'ok', ''
+
+
+def names_shape(sl, v, md_pred, raw=None, E=None):
+    """is v `names of all targets t of the root package with t.is_bin()`?  -> (verdict, reason)
+    (raw: the value before private helpers were inlined — a helper that fills a fresh Vec by push is read with filled_form)"""
     al = iters.alts(sl, v)
+    if (len(al) != 1 or al[0][1] is None or _is_empty_coll(v)) and E is not None:
+        fl = filled_form(E, raw if raw is not None else v)
+        if fl is not None:
+            return _names_shape_filled(fl, md_pred)
     if len(al) != 1 or al[0][1] is None:
         return 'unproven', 'not one pass over one collection: %s' % vstr(v)[:200]
     el, coll, fl = al[0]
@@ -1099,7 +1874,7 @@ def names_shape(sl, v, md_pred):
 
 
 def rules_cargo(ctx, rep):
-    prog, sl = ctx.prog, ctx.slicer
+    prog, sl = ctx.prog, subtype_slicer(ctx.slicer)
     from .lib.effects import Effects
     rep.rule('R10', 'cargo.rs: the binary targets are all `bin` targets of the root package; the buildpack binary is the only one or the one named like the package')
     roles = find_roles(prog, sl)
@@ -1115,7 +1890,7 @@ def rules_cargo(ctx, rep):
     # the cargo metadata the function decides on: its parameter of that type
     p0 = lambda f: (lambda v: v[0] == 'param' and v[1] == f.path and v[2] < len(f.args) and 'cargo_metadata::Metadata' in str(f.args[v[2]]))
     nv = _names_value(sl, role_value(sl, nf, roles.names[1]))
-    vd, why = names_shape(sl, nv, p0(nf))
+    vd, why = names_shape(sl, nv, p0(nf), _names_value(sl, role_value(sl, nf, roles.names[1]), inline=False), E)
     if vd == 'unproven':
         rep.unproven('R10', 'binary-target-names', _w(nf), 'cannot read the set of binary target names: ' + why)
     else:
@@ -1129,9 +1904,14 @@ def rules_cargo(ctx, rep):
         while x[0] == 'call' and len(x[2]) == 1 and (iters._is_source(x[1]) or x[1] in iters.SAME):
             x = peel_coll(x[2][0])
         al = iters.alts(sl, x)
-        if len(al) != 1 or al[0][1] is None:
-            return False
-        base = strip(peel_path(al[0][1]))
+        if len(al) != 1 or al[0][1] is None or _is_empty_coll(x):
+            # a helper that fills a fresh Vec by push in one pass over the targets
+            fl = filled_form(E, peel_coll(v))
+            if fl is None or fl.verdict != 'ok':
+                return False
+            base = strip(peel_path(peel_coll(fl.coll)))
+        else:
+            base = strip(peel_path(al[0][1]))
         return base[0] == 'field' and base[2] == 'targets' and _is_root_pkg(base[1], p0(df))
 
     def membership(v, oc):
@@ -1212,7 +1992,7 @@ def all_closures(prog, f):
 
 
 def rules_kind(ctx, rep):
-    prog, sl = ctx.prog, ctx.slicer
+    prog, sl = ctx.prog, subtype_slicer(ctx.slicer)
     from .lib.effects import Effects
     rep.rule('R11', 'a directory is packaged as libcnb.rs buildpack iff its descriptor is a component one and it has a Cargo.toml, as composite iff the descriptor is a composite one')
     kf, pb = prog.fns.get(KIND), prog.fns.get(PB)
@@ -1225,29 +2005,53 @@ def rules_kind(ctx, rep):
     reads = [e for e in E.expand(kf, 'may') if e.kind == 'READ' and e.path is not None and
              tuple(const_of(x) for x in (path_comps(e.path, p0) or ())) == ('buildpack.toml',)]
     found = {}
-    for g in [kf] + all_closures(prog, kf):
+
+    # every place a BuildpackKind comes into being for determine_buildpack_kind — in the function itself, in its closures, or
+    # in a private helper it hands the descriptor / the Cargo.toml test to (`Some(classify(&descriptor, has_manifest))`) —
+    # with the decisions it is made under at every level, in determine_buildpack_kind's terms
+    def conds_at(g, bi, m):
+        out = []
+        for cd in conditions_ctx(prog, g, bi, sl):
+            views = [(E.subst(v, m), oc) for v, oc in cd.views()] if cd.kind == 'bool' else []
+            subj = E.subst(cd.subject, m) if cd.subject is not None else None
+            out.append((cd, views, subj))
+        return out
+
+    def kind_sites(g, m, outer, depth):
         for bi, b in enumerate(g.blocks):
             for st in b['s']:
                 if st[0] == '=' and st[2]['r'] == 'agg' and str(st[2].get('adt', '')).endswith('BuildpackKind'):
-                    desc, cargo, extra = None, [], []
-                    for cd in conditions_ctx(prog, g, bi, sl):
-                        if cd.kind == 'variant' and (cd.enum or '').startswith(('std::result::Result', 'std::option::Option')):
-                            continue
-                        if cd.kind == 'variant' and (cd.enum or '').endswith('BuildpackDescriptor'):
-                            desc = set(cd.outcome) if desc is None else (desc & set(cd.outcome))
-                            continue
-                        hit = False
-                        if cd.kind == 'bool':
-                            for v, oc in cd.views():
-                                v, oc = _peel_not(v, oc)
-                                v = strip(v)
-                                if v[0] == 'call' and v[1] in _STAT and v[2] and tuple(const_of(x) for x in (path_comps(v[2][0], p0) or ())) == ('Cargo.toml',):
-                                    cargo.append(oc)
-                                    hit = True
-                                    break
-                        if not hit:
-                            extra.append(vstr(cd.subject if cd.subject is not None else cd.value)[:80])
-                    found.setdefault(st[2].get('variant'), []).append((desc, cargo, extra))
+                    yield st[2].get('variant'), outer + conds_at(g, bi, m)
+        if depth < 3:
+            for c in g.calls:
+                if c.indirect:
+                    continue
+                for h in prog.callee_fns(c):
+                    if h.kind != 'Closure' and h.crate == kf.crate and h is not g and 'BuildpackKind' in (h.ret or ''):
+                        yield from kind_sites(h, E.call_mapping(g, c, h, m), outer + conds_at(g, c.bb, m), depth + 1)
+    for g in [kf] + all_closures(prog, kf):
+        for variant, conds in kind_sites(g, {}, [], 0):
+            desc, cargo, extra = None, [], []
+            for cd, views, subj in conds:
+                if cd.kind == 'variant' and (cd.enum or '').startswith(('std::result::Result', 'std::option::Option')):
+                    continue
+                if _is_continue(cd):
+                    continue        # `?`: the same decision as the Ok / Some arm
+                if cd.kind == 'variant' and (cd.enum or '').endswith('BuildpackDescriptor'):
+                    desc = set(cd.outcome) if desc is None else (desc & set(cd.outcome))
+                    continue
+                hit = False
+                if cd.kind == 'bool':
+                    for v, oc in views:
+                        v, oc = _peel_not(v, oc)
+                        v = strip(v)
+                        if v[0] == 'call' and v[1] in _STAT and v[2] and tuple(const_of(x) for x in (path_comps(v[2][0], p0) or ())) == ('Cargo.toml',):
+                            cargo.append(oc)
+                            hit = True
+                            break
+                if not hit:
+                    extra.append(vstr(subj if subj is not None else cd.value)[:80])
+            found.setdefault(variant, []).append((desc, cargo, extra))
     lib = found.get('LibCnbRs', [])
     ok = bool(lib) and bool(reads) and all(d == {'Component'} and c == [True] and not x for d, c, x in lib)
     rep.check(ok, 'R11', 'kind-libcnb', _w(kf), 'LibCnbRs <=> component descriptor in <dir>/buildpack.toml and <dir>/Cargo.toml exists',
@@ -1372,8 +2176,8 @@ def _kept_values(sl, v, depth=0):
         return [y for x in v[1] for y in _kept_values(sl, x, depth + 1)]
     if v[0] == 'agg' and v[2] in ('Some', 'Ok') and len(v[3]) == 1:
         return _kept_values(sl, v[3][0][1], depth + 1)
-    if v[0] == 'agg' and v[2] == 'None':
-        return []
+    if v[0] == 'agg' and v[2] in ('None', 'Err'):
+        return []       # nothing is kept (`Some(Err(e))` in a pipeline collected into a Result makes the whole walk fail)
     if v[0] == 'call' and v[1].endswith('::then_some') and len(v[2]) == 2:
         return _kept_values(sl, v[2][1], depth + 1)
     if v[0] == 'call' and v[1].endswith('::then') and len(v[2]) == 2 and strip(v[2][1])[0] == 'closure':
@@ -1421,6 +2225,21 @@ def _collected_pipeline(E, v):
                         tests.append([(E.subst(x, m), oc) for x, oc in cd.views()])
                     elif not (cd.enum or '').startswith(('std::option::Option', 'std::result::Result')):
                         other.append('match on %s' % cd.enum)
+            if len(g.args) > 1 and 'std::result::Result<' in str(g.args[1]):
+                # the closure sees the walk's own `Result` elements (no `collect::<Result<..>>()?` before it): an entry the
+                # walk could not read must still fail the discovery — every path of the `Err` arm yields `Some(Err(..))`
+                handed_on = False
+                for g_, bi in pts:
+                    for cd in conditions(g_, bi, sl):
+                        sj = cd.subject
+                        if cd.kind == 'variant' and cd.outcome == frozenset({'Err'}) and (cd.enum or '').startswith('std::result::Result') and sj is not None and \
+                                any(isinstance(x, tuple) and x and x[0] == 'param' and x[1] == g.path and x[2] == 1 for x in walk(sj)):
+                            vals = [sl._rvalue(g_, st[2], set(), 0, None) for st in g_.blocks[bi]['s'] if st[0] == '=' and st[2]['r'] == 'agg' and st[2].get('variant') == 'Some']
+                            is_err = any(x[0] == 'agg' and x[2] == 'Some' and len(x[3]) == 1 and strip(x[3][0][1])[0] == 'agg' and strip(x[3][0][1])[2] == 'Err' for x in map(strip, vals))
+                            if is_err and always_through(g_, cd.target, bi, list(g_.return_blocks())):
+                                handed_on = True
+                if not handed_on:
+                    return 'violated', 'an entry the walk could not read (`Err`) is dropped instead of failing the discovery', coll, [], [], []
         else:
             tp = truth_paths(sl, g)
             if tp is None or len(ra) != 1:
@@ -1477,7 +2296,7 @@ def _filled_by_push(E0, fn, vec):
 
 
 def rules_discovery(ctx, rep):
-    prog, sl = ctx.prog, ctx.slicer
+    prog, sl = ctx.prog, subtype_slicer(ctx.slicer)
     from .lib.effects import Effects
     rep.rule('R12', 'discovery: every directory with a buildpack.toml below the workspace root that is not ignored is a candidate; the workspace root is cargo\'s')
     fb, wr = prog.fns.get(FBD), prog.fns.get(WR)
@@ -1514,6 +2333,18 @@ def rules_discovery(ctx, rep):
                 if parts_ok:
                     got = desc
                     break
+            if got is None:
+                # a private boolean helper whose `a && b` is control flow (`fn is_buildpack_dir(p) -> bool`): the conjunction
+                # that holds whenever it returns true, in the caller's terms
+                t0, oc0 = _peel_not(strip(views[0][0]), views[0][1])
+                t0 = strip(t0)
+                hg = prog.fns.get(t0[1]) if (t0[0] == 'call' and oc0 is True) else None
+                tp = truth_paths(sl, hg) if (hg is not None and hg.kind != 'Closure' and hg.ret == 'bool') else None
+                if tp:
+                    m = {(hg.path, i): a for i, a in enumerate(t0[2])}
+                    res = [_entry_test_parts(E.subst(x, m), o, is_entry_path) for x, o in tp]
+                    if all(r[0] for r in res):
+                        got = any(r[1] for r in res)
             if got is None:
                 other.append(vstr(views[0][0])[:100])
             else:
